@@ -200,6 +200,11 @@ def run(rep, tier, seed):
     common.prove(rep)
     rng = common.rng_for(seed, 'C07')
     drv = common.Driver()
+    # the encoder's header loop (end-of-octets only after an indefinite header) and the decoder's length block are
+    # translated from the source on every run (gen/py2lean.py); the translations are run against the real code here
+    from harness import kernels
+    kernels.obligations(rep, ['wrapTags', 'decodeLength'])
+    kernels.check(rep, drv, seed, 200 if tier == 'quick' else 10000, which=('wrapTags', 'decodeLength'))
     n = 1500 if tier == "quick" else 30000
     rep.rule = ('valid encodings (all codecs/modes) x tails {empty, zeros, another encoding, garbage, partial headers}; '
                 'streams of 1..5 encodings back to back on BytesIO / seekable / non-seekable streams; '
